@@ -13,6 +13,60 @@ import (
 	"verifharness/internal/abs"
 )
 
+// Pool holds composite types generated earlier in the current session (cases sharing one Plenc
+// instance): re-using them in later cases - at the top level, under other tag options, inside other
+// containers - is what exercises the instance's codec registry the way a long-lived program does.
+var Pool []*abs.TD
+
+func fromPool(r *rand.Rand, o Opts, keyOK bool) *abs.TD {
+	if keyOK || len(Pool) == 0 || r.Intn(5) != 0 {
+		return nil
+	}
+	t := Pool[r.Intn(len(Pool))]
+	if !Supported(t, o) {
+		return nil
+	}
+	return t
+}
+
+// Supported re-checks the documented nesting rules for a type taken from the pool (it may have been
+// generated under another configuration).
+func Supported(t *abs.TD, o Opts) bool {
+	switch t.K {
+	case "ptr":
+		b := resolve(t.E)
+		return b.K != "ptr" && b.K != "map" && b.K != "null" && Supported(t.E, o)
+	case "slice":
+		e := t.E
+		c := class(e, o.Proto)
+		if c == "slice" || Base(e).K == "null" {
+			return false
+		}
+		if b := resolve(e); b.K == "ptr" && (c == "fix" || resolve(b.E).K == "slice") {
+			return false
+		}
+		if o.Proto && Base(e).K == "slice" && class(Base(e).E, false) == "len" {
+			return false
+		}
+		return Supported(e, o)
+	case "map":
+		v := Base(t.Val)
+		if v.K == "map" || (o.Proto && v.K == "slice" && class(v.E, false) == "len") {
+			return false
+		}
+		return Supported(t.Val, o)
+	case "struct":
+		for i := range t.F {
+			if !Supported(t.F[i].T, o) {
+				return false
+			}
+		}
+	case "null":
+		return o.Null
+	}
+	return true
+}
+
 type Opts struct {
 	Null    bool // null.* types registered on the instance
 	Named   bool // static named / recursive types
@@ -123,6 +177,17 @@ func Type(r *rand.Rand, o Opts, depth int, keyOK bool) *abs.TD {
 	if o.Named && r.Intn(10) == 0 {
 		return &abs.TD{K: "ref", N: namedOther[r.Intn(len(namedOther))]}
 	}
+	if t := fromPool(r, o, keyOK); t != nil {
+		return t
+	}
+	t := typeNew(r, o, depth)
+	if (t.K == "slice" || t.K == "map") && len(Pool) < 64 {
+		Pool = append(Pool, t)
+	}
+	return t
+}
+
+func typeNew(r *rand.Rand, o Opts, depth int) *abs.TD {
 	switch r.Intn(6) {
 	case 0:
 		for {
